@@ -309,6 +309,118 @@ def fit_container_checks(ctx, g):
                 return
 
 
+def container_state_checks(ctx, g):
+    """(a) partial_fit on an initialised readout and (b) run / fit of an initialised MODEL: wrong feature
+    counts in every container (2-D array, list, 3-D array; wrong in the first or only in a later
+    sequence) are rejected before any state, parameter or buffer is touched; (c) a state handed to reset /
+    from_state / with_state as a row, a flat vector or (one unit) a scalar is stored as a single-row 2-D
+    array, a wrong-sized one is rejected and leaves the state alone"""
+    import reservoirpy.nodes as N
+    d, o, T, k = g.randint(1, 4), g.randint(1, 3), g.randint(3, 6), g.randint(2, 3)
+
+    def arr(*shape):
+        return np.array([g.dy(a=2, k=8) for _ in range(int(np.prod(shape)))], dtype=float).reshape(shape)
+
+    def containers(dx_first, dx_later, dy_first, dy_later):
+        X = [arr(T, dx_first)] + [arr(T, dx_later) for _ in range(k - 1)]
+        Y = [arr(T, dy_first)] + [arr(T, dy_later) for _ in range(k - 1)]
+        out = [("list", X, Y)]
+        if dx_first == dx_later and dy_first == dy_later:
+            out.append(("3d", np.stack(X), np.stack(Y)))
+            out.append(("2d", X[0], Y[0]))
+        return out
+    ob = "containers"
+    # (a) partial_fit
+    node = N.Ridge(ridge=0.5)
+    node.partial_fit(arr(k, T, d), arr(k, T, o))
+    for wrong in ("x_all", "y_all", "x_later", "y_later"):
+        dxf, dxl = (d + 1, d + 1) if wrong == "x_all" else ((d, d + 1) if wrong == "x_later" else (d, d))
+        dyf, dyl = (o + 1, o + 1) if wrong == "y_all" else ((o, o + 1) if wrong == "y_later" else (o, o))
+        for cname, X, Y in containers(dxf, dxl, dyf, dyl):
+            c = {"kind": "containers", "what": "partial_fit", "container": cname, "wrong": wrong, "d": d, "o": o}
+            before = digest(node)
+            r = common.exc_class(lambda: node.partial_fit(X, Y))
+            ctx.count(c, nontrivial=True, obligation=ob)
+            ctx.stat(f"containers partial_fit {cname}/{wrong}")
+            if r[0] == "ok":
+                ctx.violation(f"Ridge.partial_fit accepted data with a wrong feature count ({wrong}) given as a {cname} container", c, obligation=ob)
+                return
+            if digest(node) != before:
+                ctx.violation(f"Ridge.partial_fit rejected ({r[1]}) data with a wrong feature count ({wrong}, {cname} container) only after "
+                              "modifying the training buffers", c, obligation=ob)
+                return
+    # (b) models
+    for mk in ("input_delay", "res_ridge"):
+        if mk == "input_delay":
+            a, b = N.Input(), N.Delay(delay=2)
+            m = a >> b
+            m.run(arr(T, d))
+            nodes = [a, b]
+        else:
+            a, b = N.Reservoir(4, seed=3), N.Ridge(ridge=0.5)
+            m = a >> b
+            m.fit(arr(T + 3, d), arr(T + 3, o))
+            nodes = [a, b]
+        for wrong in ("x_all", "x_later"):
+            dxf, dxl = (d + 2, d + 2) if wrong == "x_all" else (d, d + 2)
+            for cname, X, _ in containers(dxf, dxl, o, o):
+                c = {"kind": "containers", "what": "model.run", "model": mk, "container": cname, "wrong": wrong, "d": d}
+                before = [digest(n) for n in nodes]
+                r = common.exc_class(lambda: m.run(X))
+                ctx.count(c, nontrivial=True, obligation=ob)
+                ctx.stat(f"containers model.run {mk} {cname}/{wrong}")
+                if r[0] == "ok":
+                    ctx.violation(f"a model initialised on {d} features accepted run() on data with another feature count ({wrong}, {cname} container)", c, obligation=ob)
+                    return
+                if [digest(n) for n in nodes] != before:
+                    ctx.violation(f"a model initialised on {d} features rejected ({r[1]}) run() on data with another feature count ({wrong}, {cname} container) "
+                                  "only after a node's state or buffer had been modified", c, obligation=ob)
+                    return
+    # (c) forms of a state
+    for units in (1, g.randint(2, 5)):
+        res = N.Reservoir(units, seed=4)
+        res.run(arr(3, d))
+        forms = {"row": arr(1, units), "flat": arr(units), "wrong_row": arr(1, units + 1), "wrong_flat": arr(units + 2)}
+        if units == 1:
+            forms["scalar"] = 0.25
+        for fname, st in forms.items():
+            for how in ("reset", "from_state", "with_state"):
+                c = {"kind": "containers", "what": "state_form", "form": fname, "how": how, "units": units}
+                before = digest(res)
+                X = arr(4, d)
+
+                def go():
+                    if how == "reset":
+                        res.reset(to_state=st)
+                        return None
+                    if how == "from_state":
+                        return res.run(X, from_state=st)
+                    with res.with_state(st):
+                        return res.run(X)
+                r = common.exc_class(go)
+                ctx.count(c, nontrivial=True, obligation=ob)
+                ctx.stat(f"containers state {fname}/{how}")
+                if fname.startswith("wrong"):
+                    if r[0] == "ok":
+                        ctx.violation(f"a state of the wrong size ({np.shape(st)} for {units} units) was accepted by {how}", c, obligation=ob)
+                        return
+                    if digest(res) != before:
+                        ctx.violation(f"a state of the wrong size was rejected by {how} ({r[1]}) after the node had been modified", c, obligation=ob)
+                        return
+                    continue
+                if r[0] != "ok":
+                    ctx.violation(f"a correctly sized state given as a {fname} ({np.shape(st)}) was rejected by {how}: {r[1]}", c, obligation=ob)
+                    return
+                if r[1] is not None and np.shape(r[1]) != (4, units):
+                    ctx.violation(f"run from a state given as a {fname} returned shape {np.shape(r[1])}, expected {(4, units)}", c, obligation=ob)
+                    return
+                cur = res.state()
+                if np.ndim(cur) != 2 or np.shape(cur) != (1, units):
+                    ctx.violation(f"after {how} with a state given as a {fname} ({np.shape(st)}), state() has shape {np.shape(cur)} instead of {(1, units)}",
+                                  c, obligation=ob)
+                    return
+
+
 def link_dims_checks(ctx, g):
     """C12 for `ops.py`: linking already initialised nodes whose dimensions disagree is rejected at
     construction, also when an operand is a model; matching dimensions are accepted"""
@@ -374,6 +486,8 @@ def run(ctx):
         link_dims_checks(ctx, g)
     for _ in range(ctx.n(6, 60)):
         fit_container_checks(ctx, g)
+    for _ in range(ctx.n(6, 60)):
+        container_state_checks(ctx, g)
     names = sorted(specs())
     for _ in range(ctx.n(12, 150)):
         for cls in names:
@@ -388,6 +502,10 @@ def replay(ctx, data):
         common.quiet()
         for _ in range(6):
             fit_container_checks(ctx, ctx.gen)
+    elif data["case"].get("kind") == "containers":
+        common.quiet()
+        for _ in range(6):
+            container_state_checks(ctx, ctx.gen)
     elif data["case"].get("kind") == "link_dims":
         common.quiet()
         for _ in range(40):
